@@ -23,7 +23,7 @@ Theorem C06_unlocked_race : exists sched ti tj r,
 Proof. exact unlocked_race. Qed.
 Print Assumptions C06_unlocked_race.
 
-(* a waiting requester receives exactly the first arrival that can be its reply (its system bytes, no W-bit), whatever else arrives
+(* a waiting requester receives exactly the first arrival that can be its reply (its system bytes; a secondary or an S9 report, not a primary - with or without W-bit), whatever else arrives
    in whatever order - also primaries of the peer that happen to carry the same system bytes (D49) *)
 Theorem C06_reply_to_requester : forall arrivals w k, answer_of w k = None -> find (fun e => fst e =? k) w <> None ->
   answer_of (fst (route w arrivals)) k = option_map (fun a => snd (fst a)) (find (is_reply_for k) arrivals).
